@@ -401,7 +401,7 @@ class _resolve_called_lambdas(ast.NodeTransformer):
                 }
                 self._arg_map_list.append(arg_map)
 
-                result = self.generic_visit(lambda_node.body)
+                result = self.visit(lambda_node.body)
                 self._arg_map_list.pop()
                 return result
         else:
